@@ -14,6 +14,7 @@ package main
 import (
 	"fmt"
 	"go/ast"
+	"go/token"
 	"go/types"
 	"sort"
 )
@@ -387,4 +388,104 @@ func ruleGrowKeepsContents(c *Ctx, rule string) {
 	if n < 2 {
 		c.Ob(rule, "fast.Interp.prepareEnv", fd, false, fmt.Sprintf("%d growth blocks found, 2 expected (Vals, Ints)", n))
 	}
+}
+
+// H2 — no unsynchronised run-time write to compile-time variables. A statement or expression closure may be executed
+// by several goroutines at once (a function called from two goroutines shares its compiled closures). A plain
+// assignment, inside such a closure, to a variable captured from the enclosing compile function is therefore a data
+// race of the interpreter itself, whatever the variable is used for (the call-site caches `cachedfun`/`cachedfunv`
+// are the instance found on the pinned tree). Decided, for every function literal of package fast whose first
+// parameter is *Env: it does not assign (=, op=, ++, --) to a local variable of the enclosing function declaration.
+// Writes inside nested literals started with `go` or registered with `defer` belong to that run and are not counted;
+// writes to fields reached through *Env are per-frame state and are not captured variables.
+func ruleNoRuntimeWritesToCaptured(c *Ctx, rule string) {
+	pk := c.P.Pkg("fast")
+	info := pk.TypesInfo
+	type res struct {
+		lits, writes int
+		vars         map[string]bool
+		first        ast.Node
+	}
+	per := map[string]*res{}
+	for _, fd := range c.P.FuncsOf("fast") {
+		if fd.Body == nil {
+			continue
+		}
+		fkey := funcKey(pk, fd)
+		var lits []*ast.FuncLit
+		ast.Inspect(fd.Body, func(n ast.Node) bool {
+			if l, ok := n.(*ast.FuncLit); ok {
+				if l.Type.Params != nil && len(l.Type.Params.List) >= 1 && isEnvPtr(typeOrInvalid(info, l.Type.Params.List[0].Type)) {
+					lits = append(lits, l)
+					return false // nested run-time literals are part of this one
+				}
+			}
+			return true
+		})
+		if len(lits) == 0 {
+			continue
+		}
+		r := &res{vars: map[string]bool{}, first: fd}
+		for _, lit := range lits {
+			r.lits++
+			captured := func(e ast.Expr) (types.Object, bool) {
+				id := identOf(e)
+				if id == nil {
+					return nil, false
+				}
+				o, ok := info.Uses[id].(*types.Var)
+				if !ok || o.IsField() {
+					return nil, false
+				}
+				if o.Pos() > fd.Pos() && o.Pos() < fd.End() && !(o.Pos() >= lit.Pos() && o.Pos() < lit.End()) {
+					return o, true
+				}
+				return nil, false
+			}
+			note := func(e ast.Expr, at ast.Node) {
+				if o, ok := captured(e); ok {
+					r.writes++
+					r.vars[o.Name()] = true
+					if r.writes == 1 {
+						r.first = at
+					}
+				}
+			}
+			ast.Inspect(lit.Body, func(n ast.Node) bool {
+				switch x := n.(type) {
+				case *ast.AssignStmt:
+					if x.Tok != token.DEFINE {
+						for _, l := range x.Lhs {
+							note(l, x)
+						}
+					}
+				case *ast.IncDecStmt:
+					note(x.X, x)
+				}
+				return true
+			})
+		}
+		per[fkey] = r
+	}
+	var keys []string
+	for k := range per {
+		keys = append(keys, k)
+	}
+	sort.Strings(keys)
+	total := 0
+	for _, k := range keys {
+		r := per[k]
+		total += r.lits
+		if r.writes == 0 {
+			c.ObTrivial(rule, k, r.first, true, fmt.Sprintf("%d run-time closures write no variable of the compile function", r.lits))
+			continue
+		}
+		var vs []string
+		for v := range r.vars {
+			vs = append(vs, v)
+		}
+		sort.Strings(vs)
+		c.Ob(rule, k, r.first, false, fmt.Sprintf("%d assignments inside run-time closures to variables of the compile function (%v): closures are shared by all goroutines that execute the same code, so this is an unsynchronised write", r.writes, vs))
+	}
+	c.Extra(rule+"_closures", total)
 }
